@@ -13,7 +13,7 @@ git -C /repo worktree add -q $W HEAD || exit 2
 cd $W
 OUT=/verif/seeded/$NAME; mkdir -p $OUT
 cp $SRC/patch.diff $OUT/patch.diff
-DEMOS=$(ls $SRC/*_test.go 2>/dev/null)
+DEMOS=$(find $SRC -name "*_test.go" 2>/dev/null)
 res() { echo "$1" >> $OUT/confirm.log; }
 : > $OUT/confirm.log
 git apply --check $SRC/patch.diff 2>>$OUT/confirm.log || { res "PATCH DOES NOT APPLY to /repo HEAD"; echo "apply-failed"; exit 3; }
@@ -21,7 +21,7 @@ git apply --check $SRC/patch.diff 2>>$OUT/confirm.log || { res "PATCH DOES NOT A
 for d in $DEMOS; do
   pkg=$(grep -m1 '^package ' $d | awk '{print $2}')
   dir=$(grep -rl --include=*.go "^package $pkg\$" src | grep -v _test.go | head -1 | xargs dirname)
-  cp $d $dir/ ; cp $d $OUT/ ; echo "$dir/$(basename $d)" >> $OUT/demo_files.txt
+  n=$(basename $(dirname $d))_$(basename $d); cp $d $dir/zz_seed_$n ; cp $d $OUT/$n ; echo "$dir/zz_seed_$n" >> $OUT/demo_files.txt
 done
 demo_run() { ( cd src && go test -vet=off -count=1 -timeout 300s -run 'Seed' ./... 2>&1 | grep -v "no test files" | tail -15 ); }
 # 1. demo without the change
